@@ -278,6 +278,16 @@ def setName (mac : Encoding) (value : Str) (_r : NameRec) : Except Err NameRec :
     .ok { legacy := if (mac.encode value).isSome then value else [0x3F], luni := some value }
   else .error .assertionError
 
+/-- `Group.new(name)` (and `Group.group_layers(…, name)`, which calls it): `LayerRecord(name=name)`
+plus the unicode block, without any MacRoman test — the legacy field holds the name itself until
+`_legacy_name` looks at it at write time. -/
+def newGroupName (name : Str) : NameRec := { legacy := name, luni := some name }
+
+/-- `PixelLayer.frompil(…, layer_name)`: `layer_record.name = layer_name`, then the `name` setter
+on the new layer (which stores the unicode block whatever the name is). -/
+def frompilName (mac : Encoding) (name : Str) : Except Err NameRec :=
+  setName mac name { legacy := name, luni := none }
+
 /-- `Layer.name` getter: the unicode block when present, else the legacy field. -/
 def getName (r : NameRec) : Str :=
   match r.luni with
